@@ -858,6 +858,25 @@ func vC01MidCase(rnd *rand.Rand, r *Resolver, tr *vC01Trace) {
 			}
 			kinds = append(kinds, "a")
 		}
+	}
+	// foreign padding on ANY positive shape (plain, DNAME with its leg, wildcard): records owned just outside the answering
+	// zone — an unsigned span, or one the parent genuinely signed (so the padding holds an RRSIG too) — in front of or behind
+	// the authority section. answer_foreign_padding_general: the verdict, the AD bit and the answer must be what they are without it.
+	if lo, hi := vC01Siblings(z.name); mode < 5 && resp != nil && lo != "" && rnd.Intn(5) == 0 && vC01F == nil {
+		span := &dns.NSEC{Hdr: dns.RR_Header{Name: lo, Rrtype: dns.TypeNSEC, Class: dns.ClassINET, Ttl: 60}, NextDomain: hi, TypeBitMap: []uint16{dns.TypeA, dns.TypeRRSIG, dns.TypeNSEC}}
+		extra := []dns.RR{span}
+		if p := z.parent; p != nil && p.signed && dns.IsSubDomain(p.name, lo) && rnd.Intn(2) == 0 {
+			extra = x.sign(p, p.zsk, span)
+		}
+		if rnd.Intn(2) == 0 {
+			resp.Ns = append(extra, resp.Ns...)
+		} else {
+			resp.Ns = append(resp.Ns, extra...)
+		}
+		kinds = append(kinds, "pad:any-shape")
+	}
+	switch {
+	case mode < 5:
 	case mode < 8: // negative answer
 		negative = true
 		resp = x.newMsg(qname, dns.TypeA)
